@@ -8,7 +8,7 @@ NEEDS_SHIM = True
 RULE = ("in-process op mn.random <L> <entropy|fail> (the harness binary defines getentropy, so Mnemonic::random inside the real library reads injected bytes): "
         "all supported lengths x patterns (all-zero, all-one, walking bit over every bit position, random), injected failure, short reads, every L in 0..40; "
         "real binary `new -n L` under an LD_PRELOAD getentropy shim: every L in 0..40, injected entropy, request log (exactly one request of 4L/3 bytes), failure at the "
-        "first request and at later requests of a vanity search; N un-interposed invocations pairwise distinct; every generated phrase parsed back (mn.parse). "
+        "first request and at later requests of a vanity search; successful vanity searches for all five lengths over a known stream (the phrase is the valid sentence of the first matching request); N un-interposed invocations pairwise distinct; every generated phrase parsed back (mn.parse). "
         "non-trivial = distinct (L, entropy); judge = phrase decodes (Spec.Bip39) to exactly the injected bytes")
 EXHAUSTIVE_SWEEPS = {"quick": ["L = 0..40 (library and binary)", "walking bit over all 128 positions for L=12"],
                      "thorough": ["L = 0..40 (library and binary)", "walking bit over all positions for all five lengths"]}
@@ -47,6 +47,12 @@ def gen(rng, tier):
     for k in range(0, 3):
         stream = ",".join([hx(x) for x in e[:k]] + ["fail"])
         cases.append(Case("cli.new_vanity %s %s - default %s" % (hx("12"), hx("0xfffffff"), stream), tags=("cli", "vanity-fail-at:%d" % k), runner="cli", meta={"threads": 0}))
+    # successful vanity searches (single-threaded, known stream): the phrase printed comes from a second or later request
+    # for most streams, and must be the valid sentence of exactly that request's bytes (judge: cli.new_vanity)
+    for L, nb in SUP.items():
+        for _ in range(4 if tier == "thorough" else 2):
+            st = ",".join(bytes(rng.getrandbits(8) for _ in range(nb)).hex() for _ in range(200))
+            cases.append(Case("cli.new_vanity %s %s - default %s" % (hx(str(L)), hx("0x" + rng.choice("0123456789abcdefABCDEF")), st), tags=("cli", "vanity-ok", "L:%d" % L), runner="cli", meta={"threads": 0}))
     return cases
 
 
